@@ -127,6 +127,28 @@ def doOpen (s : St) (route lst tgt early banner seedC seedT : String) : St × St
     | none => (s, "bad-op")
   | _, _, _, _ => (s, "bad-op")
 
+/-- `multi`: n tunnels at once. They are independent (`tunnels_are_independent`): each one's observation
+is what it produces alone from its own early data, banner and traffic (seeds and sizes as in c04.go). -/
+def multiOne (route lst : String) (early banner seed i : Nat) : Option String := do
+  let sc := (seed + 31 * i) % 256
+  let st := (seed + 17 + 57 * i) % 256
+  let s ← openOp route lst "tcp" early banner sc st
+  let nC := 1000 + 777 * i
+  let nT := 3000 + 1001 * i
+  let s := { s.stepUp (.data (stream s.seedC s.sentC nC)) with sentC := s.sentC + nC }
+  let s := { s.stepDown (.data (stream s.seedT s.sentT nT)) with sentT := s.sentT + nT }
+  some s!"t={s.tD.show} c={s.cD.show}"
+
+def doMulti (s : St) (route lst n early banner seed : String) : St × String :=
+  if s.phase ≠ 0 ∨ (route ≠ "via" ∧ route ≠ "viafake") then (s, "bad-op") else
+  match n.toNat?, early.toNat?, banner.toNat?, seed.toNat? with
+  | some n, some e, some b, some sd =>
+    if n < 2 ∨ n > 8 ∨ e > 6000 ∨ b > 6000 then (s, "bad-op") else
+    let parts := (List.range n).map (multiOne route lst e b sd)
+    if parts.any Option.isNone then (s, "bad-op") else
+    ({ s with phase := 3 }, "multi " ++ " | ".intercalate (parts.filterMap id) ++ " released")
+  | _, _, _, _ => (s, "bad-op")
+
 def step (s : St) (toks : List String) : St × String :=
   match toks with
   | "unreach" :: route :: lst :: rest =>
@@ -153,6 +175,7 @@ def step (s : St) (toks : List String) : St × String :=
     doOpen s route lst tgt early banner seedC seedT
   | ["openfake", lst, tgt, early, banner, seedC, seedT, status, _style] =>
     doOpenFake s lst tgt early banner seedC seedT status
+  | ["multi", route, lst, n, early, banner, seed, _gate, _procs] => doMulti s route lst n early banner seed
   | ["outlive", wrote, fwd] =>
     -- the client wrote `wrote` bytes without ever being idle; `fwd` of them had been forwarded when the
     -- serving loop's deadline on the client connection fell (fwd = wrote: it did not fall)
